@@ -205,8 +205,12 @@ def _df(shard):
     N = 64
     df0 = pd.DataFrame({"a": records.id1(N), "b": records.id2(N), "c": (np.arange(N, dtype=np.int64) * 7) % 23 - 5,
                         "label": [f"r{i}" for i in range(N)]})
-    for fs, seconds, cols, inplace, suffix in itertools.product((1.0, 4.0, 0.5), (0.25, -1.5, 2.0, 0.0), (None, ["a"], ["a", "c"], ["c"], ["b", "label"]),
-                                                               (False, True), ("_shifted", "_s")):
+    base_df = df0
+    frames = {"range": base_df, "floatindex": base_df.set_axis(np.arange(N) * 0.25 - 1.0), "datetime": base_df.set_axis(pd.date_range("2024-01-01", periods=N, freq="ms")),
+              "shuffled-labels": base_df.set_axis((np.arange(N) * 5) % N)}
+    for (fname, dfx), fs, seconds, cols, inplace, suffix in itertools.product(frames.items(), (1.0, 4.0, 0.5), (0.25, -1.5, 2.0, 0.0), (None, ["a"], ["a", "c"], ["c"], ["b", "label"]),
+                                                                            (False, True), ("_shifted", "_s")):
+        df0 = dfx
         case = dict(shard)
         out["evals"] += 1
         out["nontrivial"] += 1
@@ -244,6 +248,8 @@ def _df(shard):
                     prob.append(f"unselected column {c} got a shifted copy")
         if list(r["label"]) != list(df0["label"]):
             prob.append("non-numeric column altered")
+        if len(r) != len(df0) or not r.index.equals(df0.index):
+            prob.append(f"index/row count changed ({fname} index)")
         if prob:
             key = "df/" + prob[0].split(" ")[0]
             if key not in seen:
